@@ -139,6 +139,8 @@ class ShiftedServer(QueuedResource):
         # On first real event, schedule the first shift change
         if not self._initialized:
             self._initialized = True
+            # The constructor could only look at t=0; the shift in force now may differ
+            self._current_capacity = self.schedule.capacity_at(self.now.to_seconds())
             next_event = self._schedule_next_shift()
             result = super().handle_event(event)
             if next_event and isinstance(result, list):
